@@ -48,6 +48,7 @@ package sr
 //@   loop 0 invariant 0 <= i && i <= l && len(index) == int(i) && 0 < l && (maxLength > 0 ==> int(l) <= maxLength)
 //@   ensures err == nil ==> 1 <= len(index)
 //@   ensures err == nil && maxLength > 0 ==> len(index) <= maxLength
+//@   ensures maxLength <= 0 ==> err != ErrNotRegistered      // maxLength <= 0 means no limit on the index length
 
 //@ func (b *bReader) ReadByte() (r byte, err error)
 //@   mode int
